@@ -61,6 +61,32 @@ Consume ==
      /\ l' = l + 1
      /\ CASE e.cmd = "reset" ->          \* a new session starts (several sessions are judged in one run)
                /\ ti' = 0 /\ tbp' = {} /\ viol' = viol
+          [] e.cmd = "restart" ->
+               \* C11: same breakpoints (same numbers), hit again at the same place; exit status is the real one
+               LET want == RefContinue(0, tbp) IN
+               /\ tbp' = tbp
+               /\ ti' = IF e.idx = 0 THEN want ELSE e.idx
+               /\ viol' = viol \o
+                    (IF ~e.ok THEN <<V(k, "restart_failed", e.cmd, "ok", e.err)>>
+                     ELSE IF e.idx = 0 THEN <<V(k, "pc_not_in_execution", e.cmd, want, e.rpc)>>
+                     ELSE IF e.idx # want THEN <<V(k, "restart_lost_or_moved_breakpoint", e.cmd, want, e.idx)>>
+                     ELSE (IF want = Exited /\ e.code # ExitCode THEN <<V(k, "wrong_exit_code", e.cmd, ExitCode, e.code)>> ELSE <<>>)
+                          \o (IF e.nums_kept THEN <<>> ELSE <<V(k, "restart_renumbered_breakpoints", e.cmd, "same numbers", "changed")>>)
+                          \o (IF want # Exited THEN PatchChecks(k, e, tbp) ELSE <<>>))
+          [] e.cmd = "drop" ->
+               \* C11: no process (no task of it) may remain for a program the debugger launched
+               /\ UNCHANGED <<ti, tbp>>
+               /\ viol' = viol \o (IF e.panic THEN <<V(k, "panic_on_drop", e.cmd, "clean drop", e.err)>> ELSE <<>>)
+                                \o (IF e.gone THEN <<>> ELSE <<V(k, "process_left_behind", e.cmd, "no process", e.err)>>)
+          [] e.cmd = "released" ->
+               \* C11 (attached): the process lives on, runs, has original code and no armed debug register,
+               \* and computes what it computes natively
+               /\ UNCHANGED <<ti, tbp>>
+               /\ viol' = viol \o (IF e.alive THEN <<>> ELSE <<V(k, "attached_process_killed", e.cmd, "alive", e.err)>>)
+                                \o (IF e.running THEN <<>> ELSE <<V(k, "attached_process_left_stopped", e.cmd, "running", e.err)>>)
+                                \o (IF e.patched = <<>> \/ e.patched = <<-1>> THEN <<>> ELSE <<V(k, "residual_patch_after_release", e.cmd, <<>>, e.patched)>>)
+                                \o (IF e.dr_armed THEN <<V(k, "debug_register_left_armed", e.cmd, "L/G bits clear", e.err)>> ELSE <<>>)
+                                \o (IF e.code = ExitCode \/ e.code = -1 THEN <<>> ELSE <<V(k, "wrong_exit_code", e.cmd, ExitCode, e.code)>>)
           [] e.cmd = "break" ->
                /\ tbp' = IF e.ok THEN tbp \cup SeqToSet(e.addrs) ELSE tbp
                /\ ti' = ti
@@ -93,7 +119,11 @@ Consume ==
           [] e.cmd = "start" /\ ti # 0 ->
                /\ UNCHANGED <<ti, tbp>>
                /\ viol' = viol \o (IF e.ok THEN <<V(k, "accepted_without_process", e.cmd, "error", "ok")>> ELSE <<>>)
-          [] e.cmd \in {"stepi", "step", "next", "finish"} /\ ti \in 1..N ->
+          [] e.cmd \in {"stepi", "step", "next", "finish"} /\ ti \in 1..N /\ MaxOf(Adm(e.cmd, ti) \cup {ti}) >= TailPos ->
+               \* the step may run into code outside the recorded execution (the puppet's final report calls
+               \* into std): no verdict, follow the real program
+               /\ tbp' = tbp /\ ti' = (IF e.idx = 0 THEN ti ELSE e.idx) /\ viol' = viol
+          [] e.cmd \in {"stepi", "step", "next", "finish"} /\ ti \in 1..N /\ MaxOf(Adm(e.cmd, ti) \cup {ti}) < TailPos ->
                LET adm == Adm(e.cmd, ti)
                    cut == RefContinue(ti, tbp)
                    j   == e.idx IN
